@@ -18,7 +18,10 @@ Streams: (0) directed histories for the special cases the property names (a term
 removed, and then an extend with a typed fragment); (a) bounded-exhaustive op sequences over a pool of <= 3-atom
 structures (every deletion subset, every injective identity map, with / without coefficient tables);
 (b) random histories over structures of <= 30 atoms; (m) a malformed stream (incompatible extends, bad indices)
-compared model-vs-code only.
+compared model-vs-code only; (k) the KNOWN FINDING C09-coefficient-table-misaligned: histories with exactly one extend
+in which one consistent object uses ids of a kind without a coefficient table and the other brings a table — the
+normal oracle runs on them, its failure is attributed (tag "coefficient-table-misaligned") only when it arises at
+that extend and concerns the coefficient data of exactly that kind; model and code are still compared.
 """
 import io
 import itertools
@@ -1230,12 +1233,120 @@ def pool_pairs(ctx, quick):
     return pairs
 
 
+# =============================================================================================== known finding stream
+
+MISALIGNED_TAG = "coefficient-table-misaligned"
+VARIANTS = KINDS + ["pair"]
+
+
+def misaligned_kinds(d, s):
+    """the kinds (term kinds, "pair") for which `d.extend(s)` with default offsets violates the compatibility clause:
+    one side uses ids of the kind without having a table while the other side brings a table"""
+    def side(has_items, table):
+        return (not has_items) or len(table) > 0
+    out = []
+    dp, sp = d["types"]["pair"], s["types"]["pair"]
+    if not ((not dp and not sp) or (side(d["types"]["elem"], dp) and side(s["types"]["elem"], sp))):
+        out.append("pair")
+    for k in KINDS:
+        dt, st = d["types"][k], s["types"][k]
+        if not ((not dt and not st) or (side(d["terms"][k], dt) and side(s["terms"][k], st))):
+            out.append(k)
+    return out
+
+
+def misaligned_history(rng, variant, direction):
+    """[construct a, construct b, (copy), a.extend(b)] where both objects are consistent, and exactly for `variant`
+    one side has ids in use without a table and the other side has a table; direction 0: self without table,
+    1: other without table. Everything else about the two objects is compatible."""
+    tg = Tagger()
+    ta, tb = (False, True) if direction == 0 else (True, False)
+    if variant == "pair":
+        kinds = rng.choice([[], ["bond"]])
+        kw = dict(kinds=kinds, coeffs=True, extras=False, label_style="tagged")
+        a = gen.rand_atoms(rng, n=rng.randint(2, 4), pair=ta, cell=rng.choice(["ortho", False]), **kw)
+        b = gen.rand_atoms(rng, n=rng.randint(2, 3), pair=tb, cell=False, **kw)
+    else:
+        pair = rng.random() < 0.5
+        ar = ARITY[variant]
+        kw = dict(kinds=[variant], pair=pair, extras=False, label_style="tagged")
+        a = gen.rand_atoms(rng, n=rng.randint(ar, ar + 2), coeffs=ta, cell=rng.choice(["ortho", False]), **kw)
+        b = gen.rand_atoms(rng, n=rng.randint(ar, ar + 1), coeffs=tb, cell=False, **kw)
+    a, b = retag(a, tg), retag(b, tg)
+    ops = [{"k": "construct", "dst": 0, "a": a}, {"k": "construct", "dst": 1, "a": b}]
+    if rng.random() < 0.5:
+        ops.append({"k": "copy", "src": 0, "dst": 2})
+    m = rand_map(rng, len(b["atoms"]), len(a["atoms"])) if rng.random() < 0.5 else []
+    ops.append({"k": "extend", "dst": 0, "src": 1, "offsets": None, "map": m})
+    return {"op": "hist", "init": [None] * NSLOTS, "ops": ops, "dump": "full"}
+
+
+_COEFF_MSG = {
+    "pair": re.compile(r"(atom \d+ .*(without a pair coefficient|resolves to pair coefficient))|Pair Coeffs has|pair coefficient table"),
+}
+for _k in KINDS:
+    _COEFF_MSG[_k] = re.compile(r"(%s \d+ .*(without a coefficient entry|resolves to coefficient))|%s has \d+ lines|declares \d+ %s types|%s coefficient table"
+                                % (_k, CSECT[_k], _k, _k))
+
+
+def attribute_misaligned(h, fail_at, what):
+    """is this oracle failure the known misalignment? Only if it arises AT the one incompatible extend of the
+    history, and the failure is about the coefficient / pair-coefficient data of a kind for which that extend
+    violates the compatibility clause. Anything else (other step, other array, other kind) is not attributed."""
+    if what is None or fail_at is None:
+        return False
+    op = h["ops"][fail_at]
+    if op["k"] != "extend" or op.get("offsets") is not None:
+        return False
+    out, _, _ = run_history(h.get("init"), h["ops"][:fail_at], lammps=False)
+    if not out or "ok" not in out[-1]:
+        return False
+    pre = out[-1]["ok"]
+    d, sd = pre[op["dst"]], pre[op["src"]]
+    if d is None or sd is None:
+        return False
+    return any(_COEFF_MSG[k].search(what) for k in misaligned_kinds(d, sd))
+
+
+def stream_misaligned(ctx, count, compare=True):
+    """the known finding C09-coefficient-table-misaligned, reproduced on every run: consistent inputs, one
+    supported operation, and afterwards type ids in use without / with another object's coefficient text"""
+    rng = ctx.rng
+    batch = []
+    combos = [(v, d) for v in VARIANTS for d in (0, 1)]
+    if count < len(combos):
+        combos = rng.sample(combos, count)
+    else:
+        combos = [combos[i % len(combos)] for i in range(count)]
+    for variant, direction in combos:
+        h = misaligned_history(rng, variant, direction)
+        out, k, what = run_history(h["init"], h["ops"])
+        ctx.case(wire(h), nontrivial=True)
+        ctx.count("stream:misaligned")
+        ctx.count("misaligned:%s/%s" % (variant, "self-without-table" if direction == 0 else "other-without-table"))
+        if what:
+            hh = dict(h, ops=h["ops"][:k + 1])
+            known = attribute_misaligned(h, k, what)
+            ctx.count("misaligned:reproduced" if known else "misaligned:other-failure")
+            ctx.fail(what, wire(hh), observed=what,
+                     required="C09: every type id in use has its type-level data and resolves to the text it was defined with",
+                     tags=[MISALIGNED_TAG] if known else [])
+        else:
+            ctx.count("misaligned:not-reproduced")
+            ctx.notes.append("misaligned extend (%s, direction %d) did not fail the oracle" % (variant, direction))
+        batch.append((h, out))
+    if compare:
+        compare_batch(ctx, batch)
+
+
+
 # =============================================================================================== entry points
 
 def run(ctx, oracle_only=False):
     ctx.rule = RULE
     cmp_ = not oracle_only
     stream_directed(ctx, cmp_)
+    stream_misaligned(ctx, ctx.n(4, 30), cmp_)
     pairs = pool_pairs(ctx, ctx.quick())
     if ctx.quick():
         stream_exhaustive(ctx, 2, pairs, limit=ctx.n(300, None), compare=cmp_)
@@ -1259,6 +1370,7 @@ def search(ctx):
     """oracle only (real code only), larger budget"""
     ctx.rule = RULE
     stream_directed(ctx, False)
+    stream_misaligned(ctx, 10, False)
     pairs = pool_pairs(ctx, False)
     stream_exhaustive(ctx, 2, pairs, limit=None, compare=False)
     if not ctx.failures:
